@@ -1,7 +1,14 @@
-"""C01 - see DESIGN.md §7 C01; processor family."""
-from checks import proccommon
+"""C01 - see DESIGN.md §7 C01; processor family. Whv/Props/C01.lean also uses the quorum formulas translated from the
+contracts (published_accepted_on_chain), so the C07 facts are regenerated here as well."""
+from checks import proccommon, c07
+
+
+def gen(ctx):
+    return c07.gen(ctx)
 
 
 def run(ctx):
+    facts, ok = gen(ctx)
+    ctx.cov["gen_facts"] = {k: {"source": v[2], "expr": v[1]} for k, v in facts.items()}
     ctx.prove(families=("processor",))
     proccommon.run_processor(ctx, "C01", "")
